@@ -193,6 +193,16 @@ func buildWorld(sc *Scenario) (*world, error) {
 	deadlineTask := -1
 	for ti, t := range sc.Tasks {
 		for oi, o := range t.Ops {
+			if _, ok := w.zones[o.TZDerive]; !ok {
+				loc, err := loadZone(o.TZDerive)
+				if err != nil {
+					return nil, harnessf("task %d op %d: zone %q: %v", ti, oi, o.TZDerive, err)
+				}
+				w.zones[o.TZDerive] = loc
+				if loc != nil {
+					w.zoneBase[o.TZDerive] = types.ContextWithTZ(context.Background(), loc)
+				}
+			}
 			if _, ok := w.zones[o.Zone]; !ok {
 				loc, err := loadZone(o.Zone)
 				if err != nil {
@@ -369,13 +379,24 @@ func (w *world) execOp(op OpSpec, tk *task, fresh bool) (out *Outcome) {
 			out.setErr(err)
 			return out
 		}
+		// The bytes come from a buffer the caller reuses afterwards (a
+		// read loop, a SQL driver's row buffer): the Path must not keep
+		// looking at it.
+		buf := []byte(w.sc.Paths[op.Path2])
 		if op.Kind == "scan" {
-			err = p.Scan(w.sc.Paths[op.Path2])
+			err = p.Scan(buf)
 		} else {
-			err = p.UnmarshalText([]byte(w.sc.Paths[op.Path2]))
+			err = p.UnmarshalText(buf)
+		}
+		before := p.String()
+		for i := range buf {
+			buf[i] = 'x'
 		}
 		out.Raw = "scanned:" + p.String()
 		out.Ranked = out.Raw
+		if before != p.String() {
+			out.Identity = "the decoded Path changed when the caller reused the byte buffer it was decoded from: before " + before + ", after " + p.String()
+		}
 		out.setErr(err)
 		return out
 	case "string":
@@ -407,6 +428,11 @@ func (w *world) execOp(op OpSpec, tk *task, fresh bool) (out *Outcome) {
 	var root context.Context
 	if !op.TZOuter {
 		root = w.zoneBase[op.Zone]
+		if base := w.zoneBase[op.TZDerive]; base != nil && w.zones[op.Zone] != nil {
+			// A per-request zone derived, at call time, directly from
+			// the shared base context of another zone.
+			root = types.ContextWithTZ(base, w.zones[op.Zone])
+		}
 	}
 	st, ctx, err = newOpState(op, tk, root)
 	if err != nil {
@@ -483,7 +509,7 @@ func (w *world) execOp(op OpSpec, tk *task, fresh bool) (out *Outcome) {
 	// What a call returns belongs to the caller. Values the call created
 	// (datetime items, keyvalue triples) are overwritten here, as a caller
 	// reusing them would; nobody else may notice.
-	scribble(ret)
+	scribble(ret, op.Kind == "query" || op.Kind == "parsequery")
 	out.rawKept = renderValue(ret, false)
 	return out
 }
@@ -541,9 +567,18 @@ func (w *world) buildOpts(o OpSpec) []exec.Option {
 var scribbleTime = time.Date(1999, 12, 31, 23, 59, 59, 0, time.UTC)
 
 // scribble overwrites the values a call created for its caller.
-func scribble(v any) {
+func scribble(v any, ownsSlice bool) {
 	switch v := v.(type) {
 	case []any:
+		if ownsSlice {
+			// The slice Query returns is the caller's, too (a single
+			// item returned by First may be part of the document).
+			defer func() {
+				for i := range v {
+					v[i] = "overwritten by the caller"
+				}
+			}()
+		}
 		for _, e := range v {
 			switch e := e.(type) {
 			case *types.Date:
@@ -563,7 +598,7 @@ func scribble(v any) {
 			}
 		}
 	case *types.Date, *types.Time, *types.TimeTZ, *types.Timestamp, *types.TimestampTZ, map[string]any:
-		scribble([]any{v})
+		scribble([]any{v}, false)
 	}
 }
 
